@@ -74,9 +74,13 @@ def sweep(name, sensor, raw, k, e, lo, hi, voltages, res, label):
     prev_v = prev_d = None
     for v in voltages:
         raw.setVoltage(v)
-        d = sensor.getDistance()
         res.executions += 1
         rp = dict(engine="inputs", sensor=name, voltage=repr(v), kind="voltage")
+        try:
+            d = sensor.getDistance()
+        except Exception as e:  # noqa
+            res.violation(f"raises:{name}", f"{name}: voltage {v!r} -> {type(e).__name__}: {e}", rp)
+            return
         if not check_reading(name, v, d, k, e, lo, hi, res, rp):
             return
         if prev_v is not None and v > prev_v and d > prev_d:
